@@ -175,7 +175,7 @@ func c15Ops() []Op {
 }
 
 func runC15(r *ev.Run) {
-	r.Rule = "every header byte 0..99 x every value 0..255 on a valid base image per page size, judged at Open (must-reject headers also with the read lock refused and with a writer reported in RESERVED while the file is opened) and on the re-read path of a long-lived handle (swap in, read with every operation, swap back, read again), and as the first transaction of a handle that was opened before the change; non-trivial = a mutation that changes the reference verdict (must-reject) or a must-accept mutation of a field; every ordered pair (p1, p2) of legal page sizes on real files: a handle (one that read, one that was only opened) on a 3-page database of page size p1, another connection rewrites the file with page size p2, the handle must read what SQLite reads; window family (as in C08): another process switches the file to WAL mode at every pager-call boundary of a read on a handle that has read before: a switch complete before the lock request must make that very read fail"
+	r.Rule = "every header byte 0..99 x every value 0..255 on a valid base image per page size, judged at Open (must-reject headers also with the read lock refused and with a writer reported in RESERVED while the file is opened) and on the re-read path of a long-lived handle (swap in, read with every operation, swap back, read again), and as the first transaction of a handle that was opened before the change; non-trivial = a mutation that changes the reference verdict (must-reject) or a must-accept mutation of a field; every ordered pair (p1, p2) of legal page sizes on real files: a handle (one that read, one that was only opened) on a 3-page database of page size p1, another connection rewrites the file with page size p2, the handle must read what SQLite reads; window family (as in C08): another process switches the file to WAL mode at every pager-call boundary of a read on a handle that has read before: a switch complete before the lock request must make that very read fail; schema format change under a handle: a legacy-format file rewritten as format 4 by a VACUUM of another connection, the handle's first call afterwards being each of IndexedSelectEq / IndexedSelect on a DESC index, PKSelect / Select on a DESC WITHOUT ROWID key, Select"
 	sizes := []int{512, 4096, 65536}
 	if r.Thorough() {
 		sizes = PageSizes
@@ -204,6 +204,7 @@ func runC15(r *ev.Run) {
 	}
 	c15RealFiles(r)
 	c15PageSizePairs(r)
+	c15FormatChange(r)
 	windowFamily(r, "C15", c15wWriters)
 }
 
@@ -537,4 +538,113 @@ func c15PageSizePairs(r *ev.Run) {
 		}
 	}
 	r.Set("page_size_pairs", n)
+}
+
+// c15FormatChange: the schema format is a header field that is re-read for every transaction: a handle opened
+// on a legacy-format file (DESC in definitions ignored), another connection rewrites the file as format 4
+// (VACUUM: the same definitions now sort descending), and the handle's very first call afterwards is each of
+// the keyed and ordered reads in turn. One handle per first call, one that read before and one only opened.
+func c15FormatChange(r *ev.Run) {
+	dir := ev.TmpDir("c15fmt")
+	defer os.RemoveAll(dir)
+	type call struct {
+		name string
+		run  func(h *sqlittle.DB) ([][]interface{}, error)
+		sql  string
+	}
+	calls := []call{
+		{"IndexedSelectEq(t, t_v, 'b')", func(h *sqlittle.DB) ([][]interface{}, error) {
+			var rows [][]interface{}
+			err := h.IndexedSelectEq("t", "t_v", sqlittle.Key{"b"}, func(r sqlittle.Row) { rows = append(rows, CopyRow(r)) }, "id", "v")
+			return rows, err
+		}, "SELECT id, v FROM t WHERE v IS 'b' ORDER BY id"},
+		{"IndexedSelect(t, t_v)", func(h *sqlittle.DB) ([][]interface{}, error) { return IndexedAll(h, "t", "t_v", "id", "v") }, "SELECT id, v FROM t ORDER BY v DESC, id"},
+		{"PKSelect(w, 'c')", func(h *sqlittle.DB) ([][]interface{}, error) {
+			var rows [][]interface{}
+			err := h.PKSelect("w", sqlittle.Key{"c"}, func(r sqlittle.Row) { rows = append(rows, CopyRow(r)) }, "k", "v")
+			return rows, err
+		}, "SELECT k, v FROM w WHERE k = 'c'"},
+		{"Select(w)", func(h *sqlittle.DB) ([][]interface{}, error) { return SelectAll(h, "w", "k", "v") }, "SELECT k, v FROM w ORDER BY k DESC"},
+		{"Select(t)", func(h *sqlittle.DB) ([][]interface{}, error) { return SelectAll(h, "t", "id", "v") }, "SELECT id, v FROM t ORDER BY id"},
+	}
+	n := 0
+	for ci, c := range calls {
+		for _, kind := range []string{"read-before", "opened-only"} {
+			n++
+			path := fmt.Sprintf("%s/f%d.sqlite", dir, n)
+			l, err := lite.Open(path, "")
+			if err != nil {
+				r.Harness("C15 format change: %v", err)
+				return
+			}
+			l.LegacyFormat(true)
+			if err := l.Exec("PRAGMA page_size=512; CREATE TABLE t (id INTEGER PRIMARY KEY, v); CREATE INDEX t_v ON t (v DESC); CREATE TABLE w (k TEXT, v, PRIMARY KEY (k DESC)) WITHOUT ROWID; INSERT INTO t (v) VALUES ('a'), ('b'), ('c'), ('b'), ('d'), ('e'), ('b'); INSERT INTO w VALUES ('a', 1), ('b', 2), ('c', 3), ('d', 4), ('e', 5); ALTER TABLE w ADD COLUMN lg DEFAULT 'legacy'"); err != nil {
+				r.Harness("C15 format change setup: %v", err)
+				l.Close()
+				return
+			}
+			l.Close()
+			hdr := readHeader(path)
+			art := map[string]interface{}{"family": "schema-format-change-under-a-handle", "first_call": c.name, "handle": kind}
+			if len(hdr) >= 48 {
+				art["schema_format_at_open"] = binary.BigEndian.Uint32(hdr[44:48])
+			}
+			h, err := sqlittle.Open(path)
+			r.Eval(1)
+			r.Trans(2)
+			r.NontrivialN(1)
+			if err != nil {
+				r.Violation("C15:realfile-rejected:legacy-format", fmt.Sprintf("a legacy-format database written by SQLite is refused: %v", err), art)
+				continue
+			}
+			if kind == "read-before" {
+				for _, c2 := range calls {
+					if _, err := c2.run(h); err != nil {
+						r.Violation("C15:realfile-rejected:legacy-format", fmt.Sprintf("%s on a legacy-format database: %v", c2.name, err), art)
+					}
+				}
+			}
+			l, err = lite.Open(path, "")
+			if err != nil {
+				h.Close()
+				continue
+			}
+			werr := l.Exec("VACUUM")
+			want, qerr := l.Query(c.sql)
+			l.Close()
+			hdr = readHeader(path)
+			if werr != nil || qerr != nil || len(hdr) < 48 || binary.BigEndian.Uint32(hdr[44:48]) != 4 {
+				r.Harness("C15 format change: VACUUM did not produce a format 4 file (%v %v)", werr, qerr)
+				h.Close()
+				continue
+			}
+			r.Validated(1)
+			got, gerr := c.run(h)
+			if gerr != nil {
+				r.Violation("C15:valid-header-refused:format-changed", fmt.Sprintf("a handle (%s) opened on a legacy-format file that a VACUUM rewrote as format 4: first call %s fails: %v", kind, c.name, gerr), art)
+			} else if !RowsEq(got, want, true) {
+				r.Violation("C15:format-changed:misread", fmt.Sprintf("a handle (%s) opened on a legacy-format file that a VACUUM rewrote as format 4: first call %s: %s", kind, c.name, firstDiffSafe(got, want)), art)
+			}
+			// and everything else afterwards
+			for cj, c2 := range calls {
+				if cj == ci {
+					continue
+				}
+				l2, err := lite.Open(path, "")
+				if err != nil {
+					break
+				}
+				w2, _ := l2.Query(c2.sql)
+				l2.Close()
+				g2, e2 := c2.run(h)
+				r.Trans(1)
+				if e2 != nil || !RowsEq(g2, w2, true) {
+					r.Violation("C15:format-changed:misread", fmt.Sprintf("a handle (%s) after the format changed (first call was %s): %s: err=%v %s", kind, c.name, c2.name, e2, firstDiffSafe(g2, w2)), art)
+					break
+				}
+			}
+			h.Close()
+			os.Remove(path)
+		}
+	}
 }
